@@ -388,6 +388,23 @@ func runConc(c concCase) harness.Result {
 		}
 	}
 done:
+	excs, slow := 0, 0
+	for _, calls := range c.Workers {
+		for _, cl := range calls {
+			if cl.Exc != 0 {
+				excs++
+			}
+			if cl.DelayUs >= 50000 {
+				slow++
+			}
+		}
+	}
+	if excs > 0 {
+		labels = append(labels, "with-exception-replies")
+	}
+	if slow >= 3 {
+		labels = append(labels, "callers-queue-behind-slow-replies")
+	}
 	if switches > 0 {
 		labels = append(labels, "interleaved-arrivals")
 	}
